@@ -20,6 +20,15 @@ def build_impl(run):
     return exe
 
 
+def probe(run, exe):
+    """can the driver change uids, and is there a pty?  -> (uid_ok, pty_ok)"""
+    r = measure_singles(run, exe, {(1000, 7, 0, b"noop", b""), (0, 0, 1, b"noop", b"")}, "probe")
+    a, b = r[(1000, 7, 0, b"noop", b"")], r[(0, 0, 1, b"noop", b"")]
+    if a.startswith("driver-error"):
+        raise CheckError("the implementation driver cannot change its uid (%s): this check must run as root" % a)
+    return True, b != "nopty"
+
+
 def alphabet(uid_a=1000, anc=DRIVER_COMM):
     """~15 filter specs: known passing / dropping (depending on the state), unknown, empty, with / without arguments;
     anc = kernel process name of an ancestor common to the implementation driver's workers and the scripted caller"""
